@@ -10,6 +10,8 @@ import (
 	"strings"
 	"sync"
 	"time"
+
+	cli "github.com/jawher/mow.cli"
 )
 
 // C20 — applications are independent and deterministic.
@@ -620,6 +622,8 @@ func c20SoloOutcomes(t *Tape, only int) {
 // ---------------------------------------------------------------------------
 // Free-running mode used by the race-detector stage: the same worlds on real parallel goroutines.
 
+var raceSkipped int
+
 func raceWorld(t *Tape) (mismatch string) {
 	c := c20Prop{}.Gen(t, nil).(*c20Case)
 	if c.Mode != "concurrent" {
@@ -633,11 +637,23 @@ func raceWorld(t *Tape) (mismatch string) {
 	for i, a := range c.Apps {
 		decls[i] = a.App
 	}
+	// The reference runs are sequential, so the Point hook can be on for them without blinding the detector
+	// (it is off in the parallel part: its bookkeeping would order the goroutines). With it the step budget
+	// applies: an application whose matcher backtracks beyond it (KF-C03-1) would otherwise search without
+	// any bound in the parallel part, where nothing counts steps; such a world is skipped.
+	restore := cli.VerifSetPoint(pointHook)
 	for i, a := range c.Apps {
 		resetWorld(decls...)
 		r1[i] = runSolo(a, nil)
 		resetWorld(decls...)
 		r2[i] = runSolo(a, nil)
+	}
+	restore()
+	for i := range c.Apps {
+		if strings.HasPrefix(r1[i]["end"], "budget:") || strings.HasPrefix(r2[i]["end"], "budget:") {
+			raceSkipped++
+			return ""
+		}
 	}
 	resetWorld(decls...)
 	procs := make([]*Proc, n)
